@@ -191,3 +191,136 @@ B("b-view-updates-swapped", ["C02", "C04"],
 """, """        kwargs["state"] = target
         event_data.state = target
 """))
+
+# ----------------------------------------------------------------------------------------- C01
+M("c01-match-by-prefix", "C01", ["C01.match"],
+  E(EVS, "        return any(e == event for e in self)", "        return any(event.startswith(e) for e in self)"),
+  note="properties.jsonl: verified to pass all 348 tests")
+M("c01-match-substring-in", "C01", ["C01.match"],
+  E(EVS, "        return any(e == event for e in self)", "        return any(e in event for e in self)"))
+M("c01-async-all-anyof", ["C01", "C05"], ["C01.allof", "C05.sibling"],
+  E(CB, """        for coro in asyncio.as_completed(coros):
+            if not await coro:
+                return False
+        return True""", """        for coro in asyncio.as_completed(coros):
+            if await coro:
+                return True
+        return not coros"""), note="properties.jsonl: verified to pass all 348 tests")
+M("c01-sync-all-anyof", "C01", ["C01.allof"],
+  E(CB, """        for condition in self:
+            if not condition.call(*args, **kwargs):
+                return False
+        return True""", """        for condition in self:
+            if condition.call(*args, **kwargs):
+                return True
+        return len(self.items) == 0"""))
+M("c01-sync-all-only-first", "C01", ["C01.allof"],
+  E(CB, """        for condition in self:
+            if not condition.call(*args, **kwargs):
+                return False
+        return True""", """        for condition in self:
+            return bool(condition.call(*args, **kwargs))
+        return True"""))
+M("c01-unless-expected-true", "C01", ["C01.expected"],
+  E(TR, ".add(unless, priority=CallbackPriority.INLINE, expected_value=False)", ".add(unless, priority=CallbackPriority.INLINE, expected_value=True)"))
+M("c01-decorator-unless-true", "C01", ["C01.expected"],
+  E(MIX, "return self._add_callback(f, CallbackGroup.COND, expected_value=False)", "return self._add_callback(f, CallbackGroup.COND, expected_value=True)"))
+M("c01-wrapper-call-no-bool", "C01", ["C01.expected"],
+  E(CB, """        value = self._callback(*args, **kwargs)
+        if self.expected_value is not None:
+            return bool(value) == self.expected_value
+        return value
+
+""", """        value = self._callback(*args, **kwargs)
+        if self.expected_value is not None:
+            return value == self.expected_value
+        return value
+
+"""), note="truthy non-bool guard results (e.g. 1, 'x') are then treated as falsy for cond")
+M("c01-sync-continue-instead-of-break", "C01", ["C01.loop"],
+  E(SYNC, """            if not executed:
+                continue
+
+            break
+""", """            if not executed:
+                continue
+
+            continue
+"""))
+M("c01-async-reversed-candidates", "C01", ["C01.loop"],
+  E(ASYNC, "        for transition in state.transitions:", "        for transition in reversed(list(state.transitions)):"))
+M("c01-sync-raise-when-tolerated", "C01", ["C01.none"],
+  E(SYNC, """            if not self.sm.allow_event_without_transition:
+                raise TransitionNotAllowed(trigger_data.event, state)""", """            raise TransitionNotAllowed(trigger_data.event, state)"""))
+M("c01-async-never-raise", "C01", ["C01.none"],
+  E(ASYNC, """            if not self.sm.allow_event_without_transition:
+                raise TransitionNotAllowed(trigger_data.event, state)""", """            pass"""))
+M("c01-sync-activate-without-match", "C01", ["C01.loop"],
+  E(SYNC, """            if not transition.match(trigger_data.event):
+                continue
+
+""", ""))
+M("c01-sync-break-after-first-match", "C01", ["C01.loop"],
+  E(SYNC, """            if not executed:
+                continue
+
+            break
+""", """            break
+"""), note="a rejected first candidate ends the search (later candidates never tried)")
+M("c01-transitionlist-insert-front", "C01", ["C01.loop"],
+  E(TL, "            self.transitions.append(transition)", "            self.transitions.insert(0, transition)"))
+M("c01-second-state-writer", ["C01", "C10"], ["C01.write", "C10.access"],
+  E(SM, """    def _put_nonblocking(self, trigger_data: TriggerData):
+        \"\"\"Put the trigger on the queue without blocking the caller.\"\"\"
+""", """    def _put_nonblocking(self, trigger_data: TriggerData):
+        \"\"\"Put the trigger on the queue without blocking the caller.\"\"\"
+        if trigger_data.event == "reset":
+            setattr(self.model, self.state_field, self.initial_state.value)
+"""))
+M("c01-async-cond-ignored", ["C01", "C02"], ["C01.reject", "C02.order"],
+  E(ASYNC, """        if not await self.sm._callbacks.async_all(transition.cond.key, *args, **kwargs):
+            return False, None
+""", """        await self.sm._callbacks.async_all(transition.cond.key, *args, **kwargs)
+"""))
+M("c01-registry-all-missing-key-false", "C01", ["C01.allof"],
+  E(CB, """    def all(self, key: str, *args, **kwargs):
+        if key not in self._registry:
+            return True""", """    def all(self, key: str, *args, **kwargs):
+        if key not in self._registry:
+            return False"""))
+
+B("b-trigger-flag-instead-of-for-else", ["C01", "C03", "C14"],
+  E(SYNC, """        state = self.sm.current_state
+        for transition in state.transitions:
+            if not transition.match(trigger_data.event):
+                continue
+
+            executed, result = self._activate(trigger_data, transition)
+            if not executed:
+                continue
+
+            break
+        else:
+            if not self.sm.allow_event_without_transition:
+                raise TransitionNotAllowed(trigger_data.event, state)
+
+        return result if executed else None
+""", """        state = self.sm.current_state
+        result = None
+        for transition in state.transitions:
+            if transition.match(trigger_data.event):
+                executed, result = self._activate(trigger_data, transition)
+                if executed:
+                    return result
+
+        if not self.sm.allow_event_without_transition:
+            raise TransitionNotAllowed(trigger_data.event, state)
+        return None
+"""), note="early return instead of for/else")
+B("b-all-with-builtin-all", ["C01", "C05"],
+  E(CB, """        for condition in self:
+            if not condition.call(*args, **kwargs):
+                return False
+        return True""", """        return all(condition.call(*args, **kwargs) for condition in self)"""))
+B("b-match-in-items", ["C01"],
+  E(EVS, "        return any(e == event for e in self)", "        return event in self._items"))
